@@ -12,7 +12,7 @@ REPO = os.environ.get("VERIF_REPO", "/repo")
 B = os.path.join(V, "build")
 ASAN = os.path.join(B, "asan")
 CC = "clang"
-SAN = "-fsanitize=address,undefined -fno-sanitize-recover=undefined -fno-omit-frame-pointer"
+SAN = "-fsanitize=address,undefined -fno-sanitize=nonnull-attribute -fno-sanitize-recover=undefined -fno-omit-frame-pointer"
 
 WRAPS = ("pthread_mutex_lock pthread_mutex_unlock pthread_cond_wait pthread_cond_timedwait "
          "pthread_cond_signal pthread_cond_broadcast pthread_create pthread_join clock_gettime "
@@ -94,7 +94,12 @@ def lib_flags():
 
 def configure():
     os.makedirs(B, exist_ok=True)
+    stamp = os.path.join(B, "flags.stamp")
+    want = SAN + "|" + REPO
+    if os.path.exists(stamp) and open(stamp).read() != want:
+        shutil.rmtree(ASAN, ignore_errors=True)
     if not os.path.exists(os.path.join(ASAN, "build.ninja")):
+        open(stamp, "w").write(want)
         r = sh(f"cmake -G Ninja -S {REPO} -B {ASAN} -DCMAKE_C_COMPILER=clang -DCMAKE_CXX_COMPILER=clang++ "
                f"-DCMAKE_BUILD_TYPE=RelWithDebInfo -DCMAKE_C_FLAGS='{SAN}' -DBUILD_SHARED_LIBS=OFF "
                f"-DNNG_TESTS=OFF -DNNG_TOOLS=OFF -DCMAKE_EXPORT_COMPILE_COMMANDS=ON > {B}/cfg.log 2>&1")
